@@ -202,6 +202,14 @@ def _f64_ok(op, draw):
 
 def run_shard(spec, tier, seed):
     res = Result()
+    if spec.get("i") == 0:
+        # ---- (e) the documented signatures (parameter names, order, kinds, defaults) of all public methods
+        drift = C.signature_drift()
+        res.evaluations += 1
+        res.count("public_method_signatures_compared", sum(len(v) for v in C._PINNED.values()))
+        for cname, name, what in drift:
+            res.violation(f"C02/documented-signature-changed method={name}", {"class": cname, "method": name, "what": what})
+        res.cell("signatures", "all")
     for opname, dim in spec["items"]:
         op = C.OPS[opname]
         odims = op.other_dims(dim) if op.other_dims else (None,)
